@@ -407,15 +407,14 @@ Definition dir_cond (rec : ctl -> pres) (colon at_ : bool) (ps : list param) (c 
           else match arg with
                | Some VNil | Some (VList []) => with_pos next (sub_process rec c (tnth strs 0))   (* an empty list object is nil *)
                | Some _ => with_pos next (sub_process rec c (tnth strs 1))
-               | None => (* site: no argument left: the Go code goes on with nil *)
-                         if b then with_pos next (sub_process rec (add_taint c true) (tnth strs 0)) else terr c
+               | None => err c                                             (* needArg: no argument left *)
                end
         else if at_ then
           if negb (Nat.eqb (List.length strs) 1) || Nat.ltb 0 (List.length def) then err c
           else match arg with
                | Some VNil | Some (VList []) => Ok (set_pos c next, false)
                | Some _ => with_pos next (sub_process rec (set_apos c (c_apos c - 1)) (tnth strs 0))
-               | None => if b then Ok (set_pos (add_taint c true) next, false) else terr c
+               | None => err c
                end
         else
           (* the clause number: the prefix parameter, else a fixnum argument *)
@@ -438,11 +437,11 @@ Definition dir_cond (rec : ctl -> pres) (colon at_ : bool) (ps : list param) (c 
 (* ~? (dirProc) *)
 Definition dir_proc (rec : ctl -> pres) (at_ : bool) (c : ctl) : pres :=
   if (c_apos c <? 0)%Z then err c else
-  (* the control string; site: none left -> the Go code uses an empty one *)
+  (* the control string; none left: needArg *)
   match (match arg_at c with
          | Some (VStr s) => Ok (s, set_apos c (c_apos c + 1))
          | Some _ => err c
-         | None => if b then Ok ([], add_taint c true) else terr c
+         | None => err c
          end) with
   | Ok (ctrl, c) =>
       if at_ then
@@ -455,7 +454,7 @@ Definition dir_proc (rec : ctl -> pres) (at_ : bool) (c : ctl) : pres :=
                | Some (VList l) => Ok (l, c)
                | Some VNil => Ok ([], c)                                  (* nil is the empty list *)
                | Some _ => err c
-               | None => if b then Ok ([], add_taint c true) else terr c
+               | None => err c
                end) with
         | Ok (args, c) =>
             match rec (fresh c ctrl args 0) with
@@ -549,8 +548,7 @@ Definition dir_iter (fuel : nat) (rec : ctl -> pres) (colon at_ : bool) (ps : li
           if (c_apos c <? 0)%Z then err c else
           match (match arg_at c with
                  | Some v => (match as_list v with Some l => Ok (l, set_apos c (c_apos c + 1)) | None => err c end)
-                 | None => (* site: no argument left: the Go code iterates over nothing *)
-                           if b then Ok ([], add_taint c true) else terr c
+                 | None => err c                                         (* needArg: no argument left *)
                  end) with
           | Ok (ls, c) =>
               let ls := if once && Nat.eqb (List.length ls) 0 then [VNil] else ls in
@@ -562,7 +560,7 @@ Definition dir_iter (fuel : nat) (rec : ctl -> pres) (colon at_ : bool) (ps : li
           if (c_apos c <? 0)%Z then err c else
           match (match arg_at c with
                  | Some v => (match as_list v with Some l => Ok (l, set_apos c (c_apos c + 1)) | None => err c end)
-                 | None => if b then Ok ([], add_taint c true) else terr c
+                 | None => err c
                  end) with
           | Ok (l, c) => finish (iter_loop fuel rec start n once c (with_args c2 l 0)) (fun c _ => c)
           | Err t => Err t | OutOfFuel => OutOfFuel | Unsup => Unsup
